@@ -45,6 +45,11 @@ type opSpec struct {
 	Ents []entSpec `json:"ents,omitempty"`
 	Idx  uint64    `json:"idx,omitempty"`
 	Term uint64    `json:"term,omitempty"`
+	// Fill (save with entries only): the worker resizes the payload of the LAST entry so that the
+	// Save ends about *Fill bytes before the segment boundary (negative: that far beyond it, which
+	// rolls the segment). The size it chose is reported back (workerOut.Sized) and patched into the
+	// op before the history is modelled.
+	Fill *int `json:"fill,omitempty"`
 }
 
 type scriptSpec struct {
@@ -64,6 +69,16 @@ type readResult struct {
 type workerOut struct {
 	Reads []readResult `json:"reads"`
 	Done  bool         `json:"done"`
+	Sized map[int]int  `json:"sized,omitempty"` // op index -> payload size chosen for a Fill save
+}
+
+// frameBytes is the size of the WAL frame of one entry record (length field, record, padding);
+// the crc varint is taken at its longest, so the true frame is up to 4 bytes shorter.
+func frameBytes(e raftpb.Entry) int64 {
+	d, _ := e.Marshal()
+	r := walpb.Record{Type: 2, Crc: 0xffffffff, Data: d}
+	n := r.Size()
+	return int64(8 + n + (8-n%8)%8)
 }
 
 // payload builds the data of an entry deterministically from its spec.
@@ -182,6 +197,38 @@ func workerMain(path string) {
 			opt = o.Opt
 			w, err = wal.Create(sc.Dir, o.Meta, o.Opt)
 		case "save":
+			if o.Fill != nil && len(o.Ents) > 0 {
+				if off := w.VerifTailOffset(); off >= 0 {
+					// bytes this Save may add before it ends *Fill short of the boundary
+					room := wal.SegmentSizeBytes - off - int64(*o.Fill)
+					if o.St != nil {
+						room -= 24 // the hard-state record that follows the entries
+					}
+					last := len(o.Ents) - 1
+					for k := 0; k < last; k++ {
+						room -= frameBytes(o.Ents[k].entry())
+					}
+					le := o.Ents[last]
+					le.Size = 0
+					size := room - frameBytes(le.entry())
+					for it := 0; it < 3 && size > 0; it++ {
+						le.Size = int(size)
+						size += room - frameBytes(le.entry())
+					}
+					if size < 0 {
+						size = 0
+					}
+					if size > 3*wal.SegmentSizeBytes {
+						size = 3 * wal.SegmentSizeBytes
+					}
+					sc.Ops[i].Ents[last].Size = int(size)
+					o = sc.Ops[i]
+					if out.Sized == nil {
+						out.Sized = map[int]int{}
+					}
+					out.Sized[i] = int(size)
+				}
+			}
 			ents := make([]raftpb.Entry, len(o.Ents))
 			for k := range o.Ents {
 				ents[k] = o.Ents[k].entry()
